@@ -523,6 +523,10 @@ def r05_1_route_identity(ctx, rule: str = 'R05.1') -> List[Ob]:
             kwnames = {k.arg for k in inner.keywords if k.arg}
             fparams = [a.arg for a in f.node.args.args]
             mrts_ok = has_kwargs or 'MRTS' in kwnames
+            if not mrts_ok:
+                # the resolved threshold handed on positionally to a private profile helper
+                kl = {k_ for k_, v_ in _keyword_locals(wm, f).items() if v_ == 'MRTS'} | {'MRTS'}
+                mrts_ok = any(isinstance(a, ast.Name) and a.id in kl for a in inner.args[2:])
             tau_ok = True
             if 'max_tau' in fparams:
                 tau_ok = ('max_tau' in kwnames and isinstance(next(k.value for k in inner.keywords if k.arg == 'max_tau'), ast.Name)) or \
